@@ -1,6 +1,8 @@
 package main
 
 import (
+	"fmt"
+	"net"
 	"go/token"
 	"go/types"
 	"strings"
@@ -225,40 +227,85 @@ func c15R1(h H) {
 			"a site is marked for managed HTTPS exactly when neither of its hosts is loopback or internal, its scheme is not http, and QualifiesForManagedTLS holds: TLS settings with a manager present, not manual unless on-demand, not self-signed, port not the literal 80, ACME e-mail not 'off', subject certifiable unless on-demand",
 			sprintf("%d input combinations evaluated", nrun), bad)
 	}
-	// tables
-	if in := h.fn("R1", "", "IsInternal"); in != nil {
-		have := map[string]bool{}
-		allInstrs(in, func(x ssa.Instruction) {
-			if st, ok := x.(*ssa.Store); ok {
-				if s, ok := constString(st.Val); ok {
-					have[s] = true
+	// the host classification predicates as decision tables (E10): names are built from opaque labels
+	evalPred := func(fn *ssa.Function, addr aval) (bool, string) {
+		env := &absEnv{globals: map[string]*aobj{}, noFork: true, maxSteps: 50000}
+		env.ext = func(callee string, args []aval) (aval, bool) {
+			switch callee {
+			case "net.ParseIP":
+				// names are not IP literals; concrete literals are parsed by the library
+				if s, ok := args[0].(astr); ok {
+					if ip := net.ParseIP(string(s)); ip != nil {
+						return aptr{&aobj{name: "ip:" + ip.String(), typ: types.Typ[types.Int], f: map[string]aval{}}, ""}, true
+					}
 				}
-			}
-		})
-		for _, tld := range []string{".example", ".invalid", ".test", ".local"} {
-			r.Check(have[tld], "R1", "casket.IsInternal/tld:"+tld, in.Pos(), "reserved TLD "+tld+" counts as internal-only")
-		}
-		suffix := false
-		allInstrs(in, func(x ssa.Instruction) {
-			if isCallTo(x, "strings.HasSuffix") {
-				suffix = true
-			}
-		})
-		r.Check(suffix, "R1", "casket.IsInternal/suffix-test", in.Pos(), "the TLD table is applied as a suffix test on the host")
-	}
-	if lb := h.fn("R1", "", "IsLoopback"); lb != nil {
-		lits := map[string]bool{}
-		allInstrs(lb, func(x ssa.Instruction) {
-			for _, op := range x.Operands(nil) {
-				if op != nil && *op != nil {
-					if s, ok := constString(*op); ok {
-						lits[s] = true
+				return anil{}, true
+			case "net.ParseCIDR":
+				if s, ok := args[0].(astr); ok {
+					return atuple{anil{}, aptr{&aobj{name: "net:" + string(s), typ: types.Typ[types.Int], f: map[string]aval{}}, ""}, anil{}}, true
+				}
+			case "(*net.IPNet).Contains":
+				np, ok1 := args[0].(aptr)
+				ip, ok2 := args[1].(aptr)
+				if ok1 && ok2 {
+					_, n, err := net.ParseCIDR(strings.TrimPrefix(np.obj.name, "net:"))
+					if err == nil {
+						return abool(n.Contains(net.ParseIP(strings.TrimPrefix(ip.obj.name, "ip:")))), true
 					}
 				}
 			}
-		})
-		ok := lits["localhost"] && lits[".localhost"] && lits["127."] && lits["::1"]
-		r.Check(ok, "R1", "casket.IsLoopback/names", lb.Pos(), "localhost, *.localhost, 127.* and ::1 count as loopback")
+			return nil, false
+		}
+		res, und := env.run(fn, []aval{addr})
+		if b, ok := res.(abool); ok && und == "" {
+			return bool(b), ""
+		}
+		return false, "undecided — " + und + " " + describeAval(res)
+	}
+	name := func(parts ...atom) aval { return mkStr(parts) }
+	L := func(n string) atom { return atom{sym: n} }
+	lit := func(s string) atom { return atom{lit: s} }
+	if in := h.fn("R1", "", "IsInternal"); in != nil {
+		for _, tld := range []string{".example", ".invalid", ".test", ".local"} {
+			bad := ""
+			for _, addr := range []aval{name(L("site"), lit(tld)), name(L("www"), lit("."), L("site"), lit(tld)), name(L("a"), lit("."), L("b"), lit("."), L("c"), lit(tld)), name(L("site"), lit(tld+":8080"))} {
+				if got, und := evalPred(in, addr); und != "" || !got {
+					bad = describeAval(addr) + ": IsInternal = false " + und
+				}
+			}
+			r.Check(bad == "", "R1", "casket.IsInternal/tld:"+tld, in.Pos(), "names under the reserved TLD "+tld+" (any number of labels, with or without port) count as internal-only", bad)
+		}
+		bad := ""
+		for _, addr := range []aval{name(L("site"), lit(".com")), name(L("www"), lit("."), L("site"), lit(".org:443")), name(L("testing"), lit(".com"))} {
+			if got, und := evalPred(in, addr); und != "" || got {
+				bad = describeAval(addr) + ": IsInternal = true " + und
+			}
+		}
+		for _, ip := range []string{"10.1.2.3", "172.16.0.9", "192.168.1.1", "fc00::1", "10.1.2.3:80"} {
+			if got, und := evalPred(in, astr(ip)); und != "" || !got {
+				bad = ip + ": IsInternal = false " + und
+			}
+		}
+		for _, ip := range []string{"8.8.8.8", "172.32.0.1", "2001:db8::1"} {
+			if got, und := evalPred(in, astr(ip)); und != "" || got {
+				bad = ip + ": IsInternal = true " + und
+			}
+		}
+		r.Check(bad == "", "R1", "casket.IsInternal/suffix-test", in.Pos(), "public names and addresses are not internal; private address ranges are", bad)
+	}
+	if lb := h.fn("R1", "", "IsLoopback"); lb != nil {
+		bad := ""
+		for _, addr := range []aval{astr("localhost"), astr("localhost:2015"), name(L("app"), lit(".localhost")), name(L("a"), lit("."), L("b"), lit(".localhost:80")), astr("127.0.0.1"), astr("127.9.9.9:80"), astr("::1"), astr("[::1]"), astr("[::1]:443")} {
+			if got, und := evalPred(lb, addr); und != "" || !got {
+				bad = describeAval(addr) + ": IsLoopback = false " + und
+			}
+		}
+		for _, addr := range []aval{name(L("site"), lit(".com")), name(L("localhost"), lit(".com")), astr("128.0.0.1"), astr("[::2]:80")} {
+			if got, und := evalPred(lb, addr); und != "" || got {
+				bad = describeAval(addr) + ": IsLoopback = true " + und
+			}
+		}
+		r.Check(bad == "", "R1", "casket.IsLoopback/names", lb.Pos(), "localhost, *.localhost, 127.* and ::1, with or without port, count as loopback; other names and addresses do not (site hosts reach this predicate lower-cased)", bad)
 	}
 }
 
@@ -352,39 +399,129 @@ func c15R3(h H) {
 			}
 		}
 	}
-	rp := h.fn("R3", hs, "redirPlaintextHost")
-	if rp != nil {
-		found := false
-		for _, g := range withClosures(rp) {
-			for _, c := range findCalls(g, func(in ssa.Instruction) bool { return isCallTo(in, "net/http.Redirect") }) {
-				found = true
-				args := callOf(c).Args
-				code, _ := constInt(args[3])
-				target := args[2]
-				https := derives(target, func(v ssa.Value) bool { s, ok := constString(v); return ok && s == "https://" }, flowOpts{})
-				noHTTP := !derives(target, func(v ssa.Value) bool { s, ok := constString(v); return ok && strings.HasPrefix(s, "http://") }, flowOpts{})
-				uri := derives(target, func(v ssa.Value) bool { return isResultOf(v, 0, "(*net/url.URL).RequestURI") }, flowOpts{})
-				host := derives(target, func(v ssa.Value) bool { return readsField(v, "Host") }, flowOpts{throughCalls: true})
-				// the URI is the last thing appended
-				last := false
-				if b, ok := unwrapLoad(target).(*ssa.BinOp); ok && b.Op == token.ADD && isResultOf(b.Y, 0, "(*net/url.URL).RequestURI") {
-					last = true
+	// the synthesised redirect site as a decision table (E10): redirPlaintextHost is evaluated, the middleware it
+	// installs is taken from the returned site and invoked on a request
+	if rp := h.fn("R3", hs, "redirPlaintextHost"); rp != nil {
+		cfgT := rp.Params[0].Type().(*types.Pointer).Elem()
+		bad, nrun := "", 0
+		for _, sitePort := range []string{"443", "8443"} {
+			for _, hostHasPort := range []bool{false, true} {
+				var redirURL aval
+				redirCode := int64(-1)
+				nRedir := 0
+				env := &absEnv{maxSteps: 100000, globals: map[string]*aobj{
+					"HTTPSPort": {name: "HTTPSPort", typ: types.Typ[types.Int], f: map[string]aval{"": aint(443)}},
+					"HTTPPort":  {name: "HTTPPort", typ: types.Typ[types.Int], f: map[string]aval{"": aint(80)}},
+					"Quiet":     {name: "Quiet", typ: types.Typ[types.Bool], f: map[string]aval{"": abool(true)}},
+				}}
+				env.ext = func(callee string, args []aval) (aval, bool) {
+					switch {
+					case strings.HasSuffix(callee, "casket.Started"):
+						return abool(true), true
+					case callee == "(*net/url.URL).RequestURI":
+						return symLabel("request-uri"), true
+					case callee == "invoke:Header":
+						return amap{&amapData{vals: map[string]aval{}, keys: map[string]aval{}, typ: underlying(types.Unalias(h.p.typeByName("net/http", "Header"))).(*types.Map)}}, true
+					case callee == "net/http.Redirect":
+						nRedir++
+						redirURL = args[2]
+						if c, ok := args[3].(aint); ok {
+							redirCode = int64(c)
+						}
+						return atuple{}, true
+					}
+					return nil, false
 				}
-				r.Check(code == 301 && https && noHTTP && uri && host && last, "R3", "httpserver.redirPlaintextHost/redirect-target", c.Pos(),
-					"permanent redirect to https://<request host>[:port]<request URI exactly as received>", sprintf("code:%d https:%v uri:%v host:%v uri-last:%v", code, https, uri, host, last))
+				tlsObj := &aobj{name: "tls", typ: types.Typ[types.Int], f: map[string]aval{}, in: func(o *aobj, path string, t types.Type) aval { return aunk{"tls field " + path} }}
+				cfg := &aobj{name: "site", typ: cfgT, f: map[string]aval{}}
+				cfg.in = func(o *aobj, path string, t types.Type) aval {
+					switch path {
+					case "Addr.Host":
+						return symLabel("sitehost")
+					case "Addr.Port":
+						return astr(sitePort)
+					case "TLS":
+						if p, ok := underlying(t).(*types.Pointer); ok {
+							tlsObj.typ = p.Elem()
+						}
+						return aptr{tlsObj, ""}
+					}
+					return aunk{"site field " + path}
+				}
+				desc := fmt.Sprintf("site on port %s, request Host with port=%v", sitePort, hostHasPort)
+				res, und := env.run(rp, []aval{aptr{cfg, ""}})
+				nrun++
+				np, ok := res.(aptr)
+				if und != "" || !ok {
+					bad = desc + ": redirPlaintextHost undecided — " + und + " " + describeAval(res)
+					break
+				}
+				if p, ok := env.load(np.obj, "Addr.Port").(astr); !ok || p != "80" {
+					bad = desc + ": the redirect site listens on port " + describeAval(env.load(np.obj, "Addr.Port")) + ", not on the HTTP port"
+					break
+				}
+				if hst := describeAval(env.load(np.obj, "Addr.Host")); hst != "\"‹sitehost›\"" {
+					bad = desc + ": the redirect site is for host " + hst
+					break
+				}
+				mws, ok := env.load(np.obj, "middleware").(avals)
+				if !ok || len(mws.cells) != 1 {
+					bad = desc + ": the redirect site has middleware " + describeAval(env.load(np.obj, "middleware"))
+					break
+				}
+				mw, ok := mws.cells[0].f[""].(afunc)
+				if !ok {
+					bad = desc + ": middleware is " + describeAval(mws.cells[0].f[""])
+					break
+				}
+				hv, und := env.runFunc(mw, []aval{anil{}})
+				if ifc, isI := hv.(aiface); isI {
+					hv = ifc.val // HandlerFunc(f) as a Handler: ServeHTTP calls f
+				}
+				handler, ok := hv.(afunc)
+				if und != "" || !ok {
+					bad = desc + ": middleware constructor undecided — " + und + " " + describeAval(hv)
+					break
+				}
+				reqHost := mkStr([]atom{{sym: "reqhost"}})
+				if hostHasPort {
+					reqHost = mkStr([]atom{{sym: "reqhost"}, {lit: ":80"}})
+				}
+				req := &aobj{name: "request", typ: types.Typ[types.Int], f: map[string]aval{"Host": reqHost}}
+				if sig := handler.fn.Signature; sig.Params().Len() == 2 {
+					req.typ = sig.Params().At(1).Type().(*types.Pointer).Elem()
+				}
+				urlObj := &aobj{name: "url", typ: types.Typ[types.Int], f: map[string]aval{}}
+				req.in = func(o *aobj, path string, t types.Type) aval {
+					if path == "URL" {
+						return aptr{urlObj, ""}
+					}
+					return aunk{"request field " + path}
+				}
+				_, und = env.runFunc(handler, []aval{aiface{aptr{&aobj{name: "writer", typ: types.Typ[types.Int], f: map[string]aval{}}, ""}, types.Typ[types.Int]}, aptr{req, ""}})
+				want := "\"https://‹reqhost›"
+				if sitePort != "443" {
+					want += ":" + sitePort
+				}
+				want += "‹request-uri›\""
+				switch {
+				case und != "":
+					bad = desc + ": handler undecided — " + und
+				case nRedir != 1 || redirCode != 301:
+					bad = fmt.Sprintf("%s: %d redirect(s), status %d (want one permanent redirect, 301)", desc, nRedir, redirCode)
+				case describeAval(redirURL) != want:
+					bad = desc + ": Location is " + describeAval(redirURL) + ", specification says " + want
+				}
+				if bad != "" {
+					break
+				}
+			}
+			if bad != "" {
+				break
 			}
 		}
-		if !found {
-			r.Unresolve("R3", "redirPlaintextHost: http.Redirect call not found")
-		}
-		// the synthesised site listens on the HTTP port
-		portOK := false
-		allInstrs(rp, func(in ssa.Instruction) {
-			if c, ok := in.(*ssa.Call); ok && calleeName(&c.Call) == "strconv.Itoa" && isHTTPPortValue(c) {
-				portOK = true
-			}
-		})
-		r.Check(portOK, "R3", "httpserver.redirPlaintextHost/listens-on-http-port", rp.Pos(), "the redirect site is bound to the HTTP port")
+		r.Check(bad == "", "R3", "httpserver.redirPlaintextHost/redirect-table", rp.Pos(),
+			"the synthesised site listens on the HTTP port for the same host and answers every request with a 301 to https://<request host without port>[:<site port> unless it is the HTTPS default]<request URI as received>", fmt.Sprintf("%d evaluations", nrun), bad)
 	}
 }
 
